@@ -81,6 +81,12 @@ def build_message(m):
             msg.add_attachment(data.decode("utf-8"), subtype=subtype, filename=a["name"])
         else:
             msg.add_attachment(data, maintype=maintype, subtype=subtype, filename=a["name"])
+    if m.get("forward"):
+        # a forwarded mail attached as message/rfc822 (no file name): its text is the attachment's, not this message's body
+        inner = EmailMessage()
+        inner["Subject"], inner["From"], inner["To"] = "forwarded", "x@example.org", "y@example.org"
+        inner.set_content("INNER forwarded text ZX09030 that belongs to the attachment\n")
+        msg.add_attachment(inner)
     return msg
 
 
@@ -183,7 +189,9 @@ def judge_result(r, m, *, source, check_attachments=True):
     want_plain = _norm_body(m["plain"]["text"], mb) if m.get("plain") and m["structure"] != "html-only" else ""
     want_html = _norm_body(m["html"]["text"], mb) if m.get("html") else ""
     if _norm_body(r.body_plain, mb) != want_plain:
-        fails.append(("body", f"[{source}] plain body {_norm_body(r.body_plain, mb)[:80]!r} vs {want_plain[:80]!r}"))
+        got_plain = _norm_body(r.body_plain, mb)
+        inner_only = m.get("forward") and got_plain.startswith(want_plain) and got_plain[len(want_plain):].strip() == "INNER forwarded text ZX09030 that belongs to the attachment"
+        fails.append(("body-includes-attached-message" if inner_only else "body", f"[{source}] plain body {got_plain[:80]!r} vs {want_plain[:80]!r}"))
     if _norm_body(r.body_html, mb) != want_html:
         fails.append(("body", f"[{source}] html body {_norm_body(r.body_html, mb)[:80]!r} vs {want_html[:80]!r}"))
     if check_attachments:
@@ -192,6 +200,9 @@ def judge_result(r, m, *, source, check_attachments=True):
         if m["structure"] == "related":
             # whether the inline image of multipart/related counts as an attachment is not specified: ignore it
             got_atts = [a for a in got_atts if not (a.mime_type == "image/png" and a.filename not in [w["name"] for w in want_atts])]
+        if m.get("forward"):
+            # how the attached message itself is listed (name, as one attachment or not) is not specified: it is left out of the comparison
+            got_atts = [a for a in got_atts if a.mime_type != "message/rfc822"]
         if len(got_atts) != len(want_atts):
             fails.append(("attachments", f"[{source}] {len(got_atts)} attachments, message has {len(want_atts)}"))
         else:
@@ -229,6 +240,8 @@ def judge_supported_attachments(r, m, source):
                 want.extend(x.to_json() for x in res)
             except Exception:  # noqa
                 pass
+    if m.get("forward"):
+        return fails        # the attached message is itself a supported attachment with an unspecified name: this clause is judged on messages without one
     try:
         got = [x.to_json() for x in r.iterate_supported_attachments()]
     except Exception as e:  # noqa
@@ -290,6 +303,8 @@ def judge(case):
         e = eml_results[i]
         if e is not None:
             for field in ("subject", "body_plain", "body_html", "in_reply_to"):
+                if field == "body_plain" and m.get("forward"):
+                    continue          # judged against the message itself by both readers (the .eml reader's appended text is a listed finding)
                 if _norm_body(getattr(r, field), True) != _norm_body(getattr(e, field), True):
                     fails.append(("eml-vs-mbox", f"[message {i}] {field}: eml {getattr(e, field)[:60]!r} vs mbox {getattr(r, field)[:60]!r}"))
             if _pairs(r.to_emails) != _pairs(e.to_emails) or (r.from_email.name, r.from_email.address) != (e.from_email.name, e.from_email.address):
@@ -387,7 +402,7 @@ def messages(draw, idx=0):
         "message_id": f"<vf-{draw(st.integers(1, 10**9))}-{idx}@mail.example.org>", "in_reply_to": draw(st.sampled_from([None, "<parent-1@example.org>"])),
         "plain": plain, "html": html, "structure": structure, "attachments": atts,
         # the sender of the mbox separator line need not be an address: MAILER-DAEMON (what mailbox.mbox writes), "-" (Thunderbird), a bare user name
-        "fold_subject": draw(st.booleans()),
+        "fold_subject": draw(st.booleans()), "forward": draw(st.integers(0, 5)) == 0,
         "envelope": draw(st.sampled_from(["sender@example.org", "sender@example.org", "MAILER-DAEMON", "-", "nobody", "root"])),
     }
 
@@ -409,6 +424,8 @@ def features(case):
             f.add("header.quoted-name")
         if len(m["subject"]) > 70:
             f.add("header.folded")
+        if m.get("forward"):
+            f.add("forward")
         for b in (m.get("plain"), m.get("html")):
             if b:
                 f.add("body.charset." + b["charset"])
